@@ -66,6 +66,11 @@ def values(rng, shape, dtype='f', nan=0.0, lo=1, hi=4000):
         v = np.array([rng.random() < 0.5 for _ in range(size)], dtype=bool)
         return v.reshape(shape)
     ids = rng.sample(range(lo, hi), size)
+    if dtype == 'O':
+        v = np.empty(size, dtype=object)
+        for k, i in enumerate(ids):
+            v[k] = "v%d" % i
+        return v.reshape(shape)
     if dtype == 'i':
         return np.array(ids, dtype=np.int64).reshape(shape)
     v = np.array(ids, dtype=np.float64)
